@@ -116,21 +116,100 @@ End Values.
 
 (* the pipeline on concrete token lists *)
 Definition X := Var 0.
-Lemma parse_examples :
-  parse [KNum 1; KOp Plus; KNum 2; KOp Mult; KVar 0] = Some (Bin Plus (Num 1) (Bin Mult (Num 2) X)) /\
-  parse [KL; KNum 1; KOp Plus; KNum 2; KR; KOp Mult; KVar 0] = Some (Bin Mult (Bin Plus (Num 1) (Num 2)) X) /\
-  parse [KOp Minus; KVar 0; KOp Pow; KNum 2] = Some (Neg (PowN 2 X)) /\
-  parse [KVar 0; KOp Pow; KVar 1; KOp Pow; KVar 2] = Some (Bin Pow (Bin Pow X (Var 1)) (Var 2)) /\
-  parse [KFun Sin; KL; KVar 0; KOp Div; KNum 2; KR] = Some (Fun Sin (Bin Div X (Num 2))) /\
-  parse [KBFun Max; KL; KVar 0; KComma; KNum 2; KR] = Some (BFun Max X (Num 2)) /\
-  parse [KVar 0; KCmp CGt; KNum 1; KQ; KFun Sin; KL; KVar 0; KR; KColon; KNum 2] =
+Lemma parse_examples : forall v : variant,
+  parse_gen v [KNum 1; KOp Plus; KNum 2; KOp Mult; KVar 0] = Some (Bin Plus (Num 1) (Bin Mult (Num 2) X)) /\
+  parse_gen v [KL; KNum 1; KOp Plus; KNum 2; KR; KOp Mult; KVar 0] = Some (Bin Mult (Bin Plus (Num 1) (Num 2)) X) /\
+  parse_gen v [KOp Minus; KVar 0; KOp Pow; KNum 2] = Some (Neg (PowN 2 X)) /\
+  parse_gen v [KVar 0; KOp Pow; KVar 1; KOp Pow; KVar 2] = Some (Bin Pow (Bin Pow X (Var 1)) (Var 2)) /\
+  parse_gen v [KFun Sin; KL; KVar 0; KOp Div; KNum 2; KR] = Some (Fun Sin (Bin Div X (Num 2))) /\
+  parse_gen v [KBFun Max; KL; KVar 0; KComma; KNum 2; KR] = Some (BFun Max X (Num 2)) /\
+  parse_gen v [KVar 0; KCmp CGt; KNum 1; KQ; KFun Sin; KL; KVar 0; KR; KColon; KNum 2] =
     Some (Cond (LCmp CGt X (Num 1)) (Fun Sin X) (Num 2)) /\
-  parse [KVar 0; KCmp CGt; KNum 1; KAnd; KNot; KVar 1; KCmp CLe; KNum 2; KQ; KNum 1; KColon; KNum 0] =
+  parse_gen v [KVar 0; KCmp CGt; KNum 1; KAnd; KNot; KVar 1; KCmp CLe; KNum 2; KQ; KNum 1; KColon; KNum 0] =
     Some (Cond (LAnd (LCmp CGt X (Num 1)) (LNot (LCmp CLe (Var 1) (Num 2)))) (Num 1) (Num 0)) /\
-  parse [KL; KVar 0] = None /\ parse [KVar 0; KR] = None /\ parse [] = None /\
-  parse [KVar 0; KOp Minus; KOp Minus; KVar 1] = None /\ parse [KFun Sin; KVar 0] = None /\
-  parse [KVar 0; KQ; KNum 1; KColon; KNum 2] = None.
-Proof. vm_compute. repeat split. Qed.
+  parse_gen v [KL; KVar 0] = None /\ parse [KVar 0; KR] = None /\ parse [] = None /\
+  parse_gen v [KVar 0; KOp Minus; KOp Minus; KVar 1] = None /\ parse [KFun Sin; KVar 0] = None /\
+  parse_gen v [KVar 0; KQ; KNum 1; KColon; KNum 2] = None.
+Proof. intros [[|] [|] [|]]; vm_compute; repeat split. Qed.
 
-Lemma parse_total l : (exists e, parse l = Some e) \/ parse l = None.
-Proof. destruct (parse l) as [e|]; [left; now exists e | now right]. Qed.
+Lemma parse_total v l : (exists e, parse_gen v l = Some e) \/ parse_gen v l = None.
+Proof. destruct (parse_gen v l) as [e|]; [left; now exists e | now right]. Qed.
+
+(* ---- the three limitations of the pinned parser (findings) and their repairs (flags of [variant]) ---- *)
+Definition Y := Var 1.
+Definition Z' := Var 2.
+Definition n_ (z : Z) := KNum (inject_Z z).
+Definition N_ (z : Z) := Num (inject_Z z).
+
+(* (x+1)*2>3 ? 1 : 0      (x)>1 ? 1 : 0      (x>1) ? 1 : 0      ((x+1)>(y)) ? 1 : 0 *)
+Definition f_lpar1 := [KL; KVar 0; KOp Plus; n_ 1; KR; KOp Mult; n_ 2; KCmp CGt; n_ 3; KQ; n_ 1; KColon; n_ 0].
+Definition f_lpar2 := [KL; KVar 0; KR; KCmp CGt; n_ 1; KQ; n_ 1; KColon; n_ 0].
+Definition f_lpar3 := [KL; KVar 0; KCmp CGt; n_ 1; KR; KQ; n_ 1; KColon; n_ 0].
+Definition f_lpar4 := [KL; KL; KVar 0; KOp Plus; n_ 1; KR; KCmp CGt; KL; KVar 1; KR; KR; KQ; n_ 1; KColon; n_ 0].
+Definition e_lpar1 := Cond (LCmp CGt (Bin Mult (Bin Plus X (N_ 1)) (N_ 2)) (N_ 3)) (N_ 1) (N_ 0).
+Definition e_lpar2 := Cond (LCmp CGt X (N_ 1)) (N_ 1) (N_ 0).
+Definition e_lpar4 := Cond (LCmp CGt (Bin Plus X (N_ 1)) Y) (N_ 1) (N_ 0).
+
+Lemma lpar_repaired v : v_lpar_match v = true ->
+  parse_gen v f_lpar1 = Some e_lpar1 /\ parse_gen v f_lpar2 = Some e_lpar2 /\ parse_gen v f_lpar3 = Some e_lpar2 /\
+  parse_gen v f_lpar4 = Some e_lpar4.
+Proof. destruct v as [[|] [|] [|]]; cbn [v_lpar_match]; intros H; try discriminate H; vm_compute; repeat split. Qed.
+
+(* a well-formed formula (the repaired pipeline gives it the intended tree) that the pinned treatment rejects *)
+Lemma lpar_refuted : exists l e, parse_gen repaired l = Some e /\
+  forall v, v_lpar_match v = false -> parse_gen v l = None.
+Proof.
+  exists f_lpar1, e_lpar1. split; [vm_compute; reflexivity|].
+  intros [[|] [|] [|]]; cbn [v_lpar_match]; intros H; try discriminate H; vm_compute; reflexivity.
+Qed.
+
+(* 2*(sin(x)>0 ? 1 : 2)      max(max(x,y)>1 ? 1 : 2, 3)      x>0 ? (sin(y)>0 ? 1 : 2) : 3 *)
+Definition f_nest1 := [n_ 2; KOp Mult; KL; KFun Sin; KL; KVar 0; KR; KCmp CGt; n_ 0; KQ; n_ 1; KColon; n_ 2; KR].
+Definition f_nest2 := [KBFun Max; KL; KBFun Max; KL; KVar 0; KComma; KVar 1; KR; KCmp CGt; n_ 1; KQ; n_ 1; KColon; n_ 2;
+                       KComma; n_ 3; KR].
+Definition f_nest3 := [KVar 0; KCmp CGt; n_ 0; KQ; KL; KFun Sin; KL; KVar 1; KR; KCmp CGt; n_ 0; KQ; n_ 1; KColon; n_ 2; KR;
+                       KColon; n_ 3].
+Definition e_nest1 := Bin Mult (N_ 2) (Cond (LCmp CGt (Fun Sin X) (N_ 0)) (N_ 1) (N_ 2)).
+Definition e_nest2 := BFun Max (Cond (LCmp CGt (BFun Max X Y) (N_ 1)) (N_ 1) (N_ 2)) (N_ 3).
+Definition e_nest3 := Cond (LCmp CGt X (N_ 0)) (Cond (LCmp CGt (Fun Sin Y) (N_ 0)) (N_ 1) (N_ 2)) (N_ 3).
+
+Lemma nested_repaired v : v_depth_stop v = true ->
+  parse_gen v f_nest1 = Some e_nest1 /\ parse_gen v f_nest2 = Some e_nest2 /\ parse_gen v f_nest3 = Some e_nest3.
+Proof. destruct v as [[|] [|] [|]]; cbn [v_depth_stop]; intros H; try discriminate H; vm_compute; repeat split. Qed.
+
+Lemma nested_refuted : exists l e, parse_gen repaired l = Some e /\
+  forall v, v_depth_stop v = false -> parse_gen v l = None.
+Proof.
+  exists f_nest1, e_nest1. split; [vm_compute; reflexivity|].
+  intros [[|] [|] [|]]; cbn [v_depth_stop]; intros H; try discriminate H; vm_compute; reflexivity.
+Qed.
+
+(* x>3 || y>2 && z>5 ? 1 : 0      x>3 && y>2 || z<5 ? 1 : 0 *)
+Definition f_or1 := [KVar 0; KCmp CGt; n_ 3; KOr; KVar 1; KCmp CGt; n_ 2; KAnd; KVar 2; KCmp CGt; n_ 5; KQ; n_ 1; KColon; n_ 0].
+Definition f_or2 := [KVar 0; KCmp CGt; n_ 3; KAnd; KVar 1; KCmp CGt; n_ 2; KOr; KVar 2; KCmp CLt; n_ 5; KQ; n_ 1; KColon; n_ 0].
+Definition c_a := LCmp CGt X (N_ 3).
+Definition c_b := LCmp CGt Y (N_ 2).
+Definition c_c := LCmp CGt Z' (N_ 5).
+Definition c_d := LCmp CLt Z' (N_ 5).
+
+Lemma or_repaired v : v_or_first v = true ->
+  parse_gen v f_or1 = Some (Cond (LOr c_a (LAnd c_b c_c)) (N_ 1) (N_ 0)) /\
+  parse_gen v f_or2 = Some (Cond (LOr (LAnd c_a c_b) c_d) (N_ 1) (N_ 0)).
+Proof. destruct v as [[|] [|] [|]]; cbn [v_or_first]; intros H; try discriminate H; vm_compute; repeat split. Qed.
+
+(* integer scalars are enough to exhibit a point where the two readings differ *)
+Definition Zops : NumOps Z :=
+  {| ofZ := fun z => z; add := Z.add; sub := Z.sub; mul := Z.mul; div := Z.div; opp := Z.opp;
+     pow := fun a _ => a; powz := fun a _ => a; dfun := fun _ a => a; ufun := fun _ a => a; bfun := fun _ a _ => a;
+     ln10 := 2%Z; ltb := Z.ltb; leb := Z.leb; eqb := Z.eqb |}.
+Definition env_or : nat -> Z := fun i => match i with O => 4%Z | _ => 0%Z end.
+
+(* the pinned treatment reads  a || b && c  as  (a || b) && c : at x = 4, y = z = 0 the formula is 0, the C reading
+   (the one of the repaired pipeline) gives 1 *)
+Lemma or_refuted : exists l e, parse_gen repaired l = Some e /\ eval Zops env_or e = 1%Z /\
+  forall v, v_or_first v = false -> exists e', parse_gen v l = Some e' /\ eval Zops env_or e' = 0%Z.
+Proof.
+  exists f_or1, (Cond (LOr c_a (LAnd c_b c_c)) (N_ 1) (N_ 0)). split; [vm_compute; reflexivity|]. split; [vm_compute; reflexivity|].
+  intros [[|] [|] [|]]; cbn [v_or_first]; intros H; try discriminate H;
+    (exists (Cond (LAnd (LOr c_a c_b) c_c) (N_ 1) (N_ 0)); split; vm_compute; reflexivity).
+Qed.
